@@ -49,6 +49,13 @@ def hand_programs():
     out.append(('apply-right', {'rules': [('start', ('apply', D, 1, [])), ], 'templates': []}))
     # known finding: a lambda captures the variable; a sibling binder of the same name reassigns it before the call
     out.append(('lambda-late-binding', {'rules': [('start', ('applyl', sign, ('let', 'ka', D, ('py', 100, []))))], 'templates': []}))
+    # a class as start rule with omitted members first, with and without an ignore declaration
+    for ign in (False, True):
+        out.append(('start-class' + ('-ignore' if ign else ''), {'rules': [('start', ('bseq', 'start', ['xb', 'xc'], [
+            ('na', D), (None, L(',')), ('xb', ('rep', CC, 0, ['na'])), ('xc', ('py', 1, ['na', 'xb']))]))], 'templates': [], 'ignore': ign}))
+    # a parameter named like a rule denotes the argument, not the rule
+    out.append(('param-hides-rule', {'rules': [('start', ('seq', [('call', 0, [(None, D)]), ('opt', ('ref', 1))])), ('R1', L('a'))],
+                                     'templates': [('T0', ['R1'], ('seq', [L('('), ('pvar', 'R1'), L(')')]))]}))
     # parameters: sibling invocations at the same position, nested and recursive
     out.append(('params', {'rules': [('start', ('seq', [('call', 0, [(None, ('py', 200, []))]), ('call', 0, [(None, ('py', 201, []))])]))],
                            'templates': [('T0', ['xa'], ('seq', [('opt', ('where', CC, 2, ['xa'])), V('xa')]))]}))
@@ -66,7 +73,7 @@ def hand_programs():
 def build_jobs(tier, seed, expand=False):
     rng = random.Random(seed)
     jobs = []
-    inputs = envgen.inputs_for(rng, 12) + ['a!', 'b', 'bc', 'aab', 'abcab', '2,3', '3,2', '1,1', '2abc', '0', '3abc', 'aaa', 'aa', 'ab', 'ba', 'a,b']
+    inputs = envgen.inputs_for(rng, 12) + ['a!', 'b', 'bc', 'aab', 'abcab', '2,3', '3,2', '1,1', '2abc', '0', '3abc', 'aaa', 'aa', 'ab', 'ba', 'a,b', '2,ab', '1,c', '(2)', '(2)a', '(a)', '0,']
     for named in (None, 'envh'):
         for fam, P in hand_programs():
             Q = dict(P)
